@@ -324,6 +324,9 @@ func Run(opts *Options) (int, error) {
 		chunkList.Clear()
 		itemIndex = 0
 		inputRevision.bumpMajor()
+		if verifOn {
+			verifCoord("restart", "rev", []int{inputRevision.major, inputRevision.minor})
+		}
 		header = make([]string, 0, opts.HeaderLines)
 		readyChan := make(chan bool)
 		go reader.restart(command, environ, readyChan)
@@ -354,6 +357,9 @@ func Run(opts *Options) (int, error) {
 					}
 					quitSignal := value.(quitSignal)
 					exitCode = quitSignal.code
+					if verifOn {
+						verifCoord("quit", "code", exitCode)
+					}
 					err = quitSignal.err
 					stop = true
 					return
@@ -382,6 +388,10 @@ func Run(opts *Options) (int, error) {
 						snapshotRevision = inputRevision
 					}
 					total = count
+					if verifOn {
+						verifCoord("read", "fin", evt == EvtReadFin, "count", count, "reading", reading, "useSnapshot", useSnapshot,
+							"rev", []int{snapshotRevision.major, snapshotRevision.minor})
+					}
 					terminal.UpdateCount(total, !reading, value.(*string))
 					if heightUnknown && !deferred {
 						determine(!reading)
@@ -429,6 +439,9 @@ func Run(opts *Options) (int, error) {
 						} else {
 							restart(*command, environ)
 						}
+					}
+					if verifOn {
+						verifCoord("search", "changed", changed, "command", command != nil, "sort", sort, "reading", reading)
 					}
 					if !changed {
 						break
@@ -497,6 +510,9 @@ func Run(opts *Options) (int, error) {
 								}
 								determine(val.final)
 							}
+						}
+						if verifOn {
+							verifCoord("searchfin", "n", val.Length(), "final", val.final)
 						}
 						terminal.UpdateList(val)
 					}
